@@ -33,7 +33,7 @@ ANCHOR_FILES = ("_core", "_actions", "_typehints", "_common", "_link_arguments",
 NO_SHRINK = ("parsers/*/opts", "parsers/*/opts/*", "world", "pristine")
 SHRINK_DICTS = ("world/files", "world/env")
 
-FEATURES = ["l", "dd", "base", "model", "fn", "probe", "cfg", "sub", "dcf", "env", "lst"]
+FEATURES = ["l", "dd", "base", "bdef", "model", "fn", "probe", "cfg", "sub", "dcf", "env", "lst"]
 
 
 def parser_spec(feats, eoe):
@@ -46,6 +46,9 @@ def parser_spec(feats, eoe):
         args.append({"k": "arg", "name": "dd", "type": "opt_D", "default": None})
     if "base" in feats:
         args.append({"k": "arg", "name": "base", "type": "opt_base", "default": None})
+    if "bdef" in feats:
+        # a subclass-typed argument whose default carries init_args that other classes do not accept
+        args.append({"k": "arg", "name": "bdef", "type": "opt_base", "default": {"__lazy__": "Sub1", "kw": {"n": 2, "opts": {"a": 2.0}}}})
     if "fn" in feats:
         args.append({"k": "arg", "name": "fn", "type": "callable_base"})
     if "probe" in feats:
@@ -82,6 +85,7 @@ ARGV = {
         ["--base=Sub1", "--base.child=Base", "--base.child.n=4"],
         ["--base=no.such.Class"],
     ],
+    "bdef": [["--bdef=Base"], ["--bdef.n=7"], ["--bdef=dsim.simtypes.Sub2", "--bdef.k=1"], ["--bdef.opts.a=3"], ["--bdef=null"]],
     "fn": [["--fn=Sub1"], ["--fn.help=Sub1"], ["--fn.help=Base"], ["--fn.help"], ["--fn=Base", "--fn.tags=[2]"]],
     "probe": [["--probe=p:x"], ["--probe=bad"]],
     "lst": [["--bases+=Sub1"], ["--bases+=Base", "--bases.n=2"], ['--bases=[{"class_path":"Sub1"}]'], ["--bases+=Unrelated"]],
@@ -115,6 +119,7 @@ OBJ = {
     "l": [{"l": [1, 2]}, {"l": "x"}],
     "dd": [{"dd": {"u": 5}}, {"dd": {"u": "x"}}],
     "base": [{"base": {"class_path": "dsim.simtypes.Sub1"}}, {"base": {"class_path": "dsim.simtypes.Sub1", "init_args": {"child": {"class_path": "Base"}}}}, {"base": {"class_path": "os.path"}}],
+    "bdef": [{"bdef": {"class_path": "dsim.simtypes.Base"}}, {"bdef": {"init_args": {"n": 9}}}, {"bdef": {"class_path": "dsim.simtypes.Sub2", "init_args": {"k": 3}}}, {"bdef": "Base"}],
     "probe": [{"probe": "p:y"}, {"probe": 3}],
     "model": [{"model": {"name": "z"}}, {"model": {"base": {"class_path": "Sub2"}}}],
     "sub": [{"fit": {"lr": 0.2}}, {"fit": {"lr": 0.2}, "test": {"name": "n"}}, {"subcommand": "test", "test": {"name": "q"}}],
@@ -126,8 +131,9 @@ ENVS = {
     "cfg": [{"APP_CFG": "c1.yaml"}, {"APP_CFG": "nofile.yaml"}],
     "sub": [{"APP_SUBCOMMAND": "fit", "APP_FIT__LR": "0.4"}],
     "base": [{"APP_BASE": "Sub1"}],
+    "bdef": [{"APP_BDEF": "Base"}, {"APP_BDEF": "dsim.simtypes.Sub2"}],
 }
-STRS = ["a: 4\n", "a: [\n", "{}", "zz: 1", "a: 2\nl: [5]\n", "base: Sub1\n", "fit:\n  lr: 0.9\n"]
+STRS = ["a: 4\n", "a: [\n", "{}", "zz: 1", "a: 2\nl: [5]\n", "base: Sub1\n", "fit:\n  lr: 0.9\n", "bdef: Base\n", "bdef:\n  class_path: dsim.simtypes.Sub2\n", '{"base": {"init_args": {"n": 3}}}', '{"bdef": {"init_args": {"n": 3}}}', '{"model": {"base": {"init_args": {"n": 1}}}}', '{"dd": {"u": 4}}']
 FILE_ALTS = {
     "dflt.yaml": ["a: 9\n", "a: 11\n", "", "a: x\n", "a: [\n"],
     "c1.yaml": ["a: 5\n", "a: 6\n", "a: bad\n"],
@@ -173,7 +179,10 @@ def gen_obj(rng, feats):
 def gen_op(rng, pi, feats):
     c = rng.random()
     if c < 0.45:
-        return {"p": pi, "kind": "args", "argv": gen_argv(rng, feats)}
+        op = {"p": pi, "kind": "args", "argv": gen_argv(rng, feats)}
+        if rng.random() < 0.08:
+            op["kw"] = rng.choice([{"defaults": False}, {"env": True}, {"with_meta": False}])
+        return op
     if c < 0.55:
         return {"p": pi, "kind": "obj", "obj": gen_obj(rng, feats)}
     if c < 0.61:
@@ -217,7 +226,7 @@ def generate(rng, tier):
         "dirs": ["home", "run"],
         "files": {
             "run/c1.yaml": "a: 5\n",
-            "run/c2.yaml": "a: 2\nbase:\n  class_path: dsim.simtypes.Sub1\n  init_args:\n    n: 2\n" if any("base" in p["feats"] for p in parsers) else "a: 2\n",
+            "run/c2.yaml": "a: 2\n" + ("base:\n  class_path: dsim.simtypes.Sub1\n  init_args:\n    n: 2\n" if any("base" in p["feats"] for p in parsers) else "") + ("bdef: Base\n" if any("bdef" in p["feats"] for p in parsers) else ""),
             "run/bad.yaml": "a: [1\n",
             "dflt.yaml": rng.choice(["a: 9\n", "", "a: 9\n"]),
         },
@@ -270,7 +279,7 @@ def _subst(spec, root):
 def do_op(p, op):
     k = op["kind"]
     if k == "args":
-        return p.parse_args(list(op["argv"]))
+        return p.parse_args(list(op["argv"]), **op.get("kw", {}))
     if k == "obj":
         return p.parse_object(copy.deepcopy(op["obj"]))
     if k == "str":
@@ -324,22 +333,42 @@ def ctx_residue():
     return out
 
 
-def _action_attr_diff(R, F):
-    if len(R._actions) != len(F._actions):
+def _action_attr_diff(R, F, noise=()):
+    """name of the first action attribute that differs between the reused and a fresh parser; declared
+    defaults first, the lazily added --print_shtab action ignored, the scratch attribute _check_type_kwargs last"""
+    from jsonargparse._completions import ShtabAction
+
+    ra = [a for a in R._actions if not isinstance(a, ShtabAction)]
+    fa = [a for a in F._actions if not isinstance(a, ShtabAction)]
+    if len(ra) != len(fa):
         return "actions-count"
-    for a, b in zip(R._actions, F._actions):
+
+    def differs(x, y):
+        if isinstance(x, (str, int, float, bool, type(None), list, dict, tuple, set)) or hasattr(x, "__dict__"):
+            try:
+                return json.dumps(harness.canon_value(x)) != json.dumps(harness.canon_value(y))
+            except Exception:
+                return False
+        return False
+
+    late = None
+    for a, b in zip(ra, fa):
+        va, vb = vars(a), vars(b)
+        if "default" in va and "default" in vb and "action-attr:default" not in noise and differs(va["default"], vb["default"]):
+            return "action-attr:default"
+    for a, b in zip(ra, fa):
         va, vb = vars(a), vars(b)
         if set(va) != set(vb):
             return "action-attr:" + sorted(set(va) ^ set(vb))[0]
         for n in va:
-            x, y = va[n], vb[n]
-            if isinstance(x, (str, int, float, bool, type(None), list, dict, tuple, set)):
-                try:
-                    if json.dumps(harness.canon_value(x)) != json.dumps(harness.canon_value(y)):
-                        return "action-attr:" + n
-                except Exception:
-                    pass
-    return None
+            if ("action-attr:" + n) in noise or n == "default":
+                continue
+            if differs(va[n], vb[n]) and not callable(va[n]):
+                if n == "_check_type_kwargs":
+                    late = late or "action-attr:" + n
+                    continue
+                return "action-attr:" + n
+    return late
 
 
 def residue_pre(R, cwd0, ns0):
@@ -364,7 +393,18 @@ def residue_tag(pre, R, F):
     if pre:
         return pre
     if R is not None and F is not None:
-        d = _action_attr_diff(R, F)
+        # attributes that differ even between two fresh parsers of the same spec say nothing
+        noise = set()
+        spec = getattr(F, "_dsim_spec", None)
+        if spec is not None:
+            with rt.suspended():
+                F2 = zoo.build(spec)
+            for _ in range(6):
+                d = _action_attr_diff(F, F2, noise)
+                if not d or d == "actions-count":
+                    break
+                noise.add(d)
+        d = _action_attr_diff(R, F, noise)
         if d:
             return d
     if _ActionHelpClassPath.sub_add_kwargs:
@@ -488,6 +528,7 @@ def _run_history(sc, ctx, sim, root, golden, srv, cwd0, ns0):
         nf = len(sim.fired)
         try:
             F = zoo.build(specs[pi])
+            F._dsim_spec = specs[pi]
             oF = run_op(lambda: do_op(F, op))
         finally:
             sim.op_kinds = saved
